@@ -28,7 +28,16 @@ the implementation).  search_complete_stmt false — the code as it was pinned, 
 CPCTPlus::shift kept its neighbour only `if n.pstack != n_pstack` — is REFUTED
 (search_complete_refuted, vm_compute on the DESIGN §9 witness, on a mirror of dijkstra + CPCTPlus
 that reproduced that implementation's output); /repo cf71a95 repaired it (`|| new_laidx > laidx`),
-SHIFT_FIXED selects the matching mirror.
+SHIFT_FIXED selects the matching mirror.  THE RANK (C06/RankCap*.v; /repo 00915cc): the distance by which rank_cnds
+compares candidates is capped at in_laidx + TRY_PARSE_AT_MOST for EVERY candidate (Model.cap_dist; the mirror takes the cap
+as a parameter, the check passes the implementation's 250) — rank_fixed_spec: the repaired ranking gives each candidate its
+capped distance (measured by a parse that never goes beyond the cap: parse_below_within, cap_dist_is_capped_distance) and keeps
+exactly the candidates for which it is maximal; far_is_capped_distance: the same distance is the rank of the reference
+(parses_furthest in reference_complete); all completeness theorems above are re-established for this ranking.  The code as it
+was pinned called lr_upto unconditionally — a candidate whose own repairs end beyond the cap was parsed on without limit and
+out-ranked every candidate stopped at the cap: rank_cap_refuted_orig (vm_compute witness, cap 4); the reference as it stood had
+the same uncapped comparison built in (reference_orig_uncapped), which is why set equality did not show it.  RANK_CAP_FIXED
+selects the variant (mirror and reference).
 
 Decision per error of every generated (grammar, costs, avoid set, input):
  (i) directly on the implementation's list: equal cost; no trailing Shift; no duplicate;
@@ -50,6 +59,13 @@ SHIFT_FIXED = True
 if core.SCRATCH and os.environ.get("GV_C06_SHIFT_FIXED"):      # mutation-testing aid only (never under ./check on /repo)
     SHIFT_FIXED = os.environ["GV_C06_SHIFT_FIXED"] == "1"
 
+# True since /repo 00915cc: rank_cnds measures every candidate up to in_laidx + TRY_PARSE_AT_MOST and no further
+# (False = the code as pinned: a candidate whose own repairs end beyond that limit is parsed on without limit; then the pinned
+# ranking — far_orig / ranked_successes_orig / search_mirror_orig, refuted by C06_rank_cap_refuted_orig — is the tie)
+RANK_CAP_FIXED = True
+if core.SCRATCH and os.environ.get("GV_C06_RANK_CAP_FIXED"):   # mutation-testing aid only (never under ./check on /repo)
+    RANK_CAP_FIXED = os.environ["GV_C06_RANK_CAP_FIXED"] == "1"
+
 KNOWN_SHIFT = ("minimum-cost repair missed: shift neighbour dropped when the parse stack returns to an equal value "
                "after consuming a lexeme")
 # same class as C05's finding, seen from C06: on a table with resolved conflicts the search continues from stacks
@@ -66,17 +82,38 @@ CASE_TIMEOUT_MS = 60000   # watchdog per case line
 ONE_TIMEOUT_MS = 9000
 
 
+BIG_BUDGET_MS = 60000     # the unit-cost family past the cap (a search of cost >= 84): generous budget, thorough tier
+BIG_TIMEOUT_MS = 300000
+
+
+def is_big(fam):
+    return fam.startswith("rankcap_unit")
+
+
 def run_impl(exe, cases):
-    """the `repair` harness on every case; a case line lost to the watchdog / memory limit is redone input by input"""
+    """the `repair` harness on every case (the families of is_big with their own budget)"""
+    out = [None] * len(cases)
+    small = [i for i, c in enumerate(cases) if not is_big(c[0])]
+    big = [i for i, c in enumerate(cases) if is_big(c[0])]
+    for i, l in zip(small, run_impl1(exe, [cases[i] for i in small], BUDGET_MS, CASE_TIMEOUT_MS)):
+        out[i] = l
+    if big:
+        for i, l in zip(big, run_impl1(exe, [cases[i] for i in big], BIG_BUDGET_MS, BIG_TIMEOUT_MS)):
+            out[i] = l
+    return out
+
+
+def run_impl1(exe, cases, budget_ms, timeout_ms):
+    """a case line lost to the watchdog / memory limit is redone input by input"""
     lines = [repair.case_line(g, costs, inputs) for _, g, _, costs, inputs in cases]
-    env = {"GRMTOOLS_VERIF_RECOVERY_BUDGET_MS": str(BUDGET_MS), "GVH_CASE_TIMEOUT_MS": str(CASE_TIMEOUT_MS)}
+    env = {"GRMTOOLS_VERIF_RECOVERY_BUDGET_MS": str(budget_ms), "GVH_CASE_TIMEOUT_MS": str(timeout_ms)}
     impl = core.run_lines([exe], lines, env=env)
     for i, out in enumerate(impl):
         if out.startswith("G "):
             continue
         _, g, _, costs, inputs = cases[i]
         sub = [repair.case_line(g, costs, [])] + [repair.case_line(g, costs, [inp]) for inp in inputs]
-        env1 = {"GRMTOOLS_VERIF_RECOVERY_BUDGET_MS": str(BUDGET_MS), "GVH_CASE_TIMEOUT_MS": str(ONE_TIMEOUT_MS)}
+        env1 = {"GRMTOOLS_VERIF_RECOVERY_BUDGET_MS": str(budget_ms), "GVH_CASE_TIMEOUT_MS": str(max(ONE_TIMEOUT_MS, timeout_ms // 4))}
         outs = core.run_lines([exe], sub, env=env1, shards=min(core.NPROC, len(sub)))
         if not outs[0].startswith("G "):
             continue
@@ -96,6 +133,7 @@ class ErrRes:
         self.rf = None          # ('some', cmin, fmax) | ('none', bound) | ('cap', bound)
         self.rs = []            # (flag, seq string)
         self.mp = self.mf = None  # (status, [seq strings])
+        self.rk = None          # rank_fuel_ok of the repaired mirror's candidates (OPT fullvalid=1)
 
 
 def parse_model(line):
@@ -125,6 +163,8 @@ def parse_model(line):
             cur.rf = (s[1],) + tuple(int(x) for x in s[2:])
         elif k == "RS":
             cur.rs.append((s[1] == "1", " ".join(s[3:])))
+        elif k == "RK":
+            cur.rk = s[1] == "1"
         elif k in ("MP", "MF"):
             last_m = (s[1], [])
             if k == "MP":
@@ -201,13 +241,26 @@ def run(ctx):
         ctx.oblige(True)
     exe = core.build_harness("repair")
     mexe = core.build_model("c06")
-    cases = c06gen.long_tail_cases() + c06gen.corpus_cases(ctx.rng, ctx.n(12, 120)) + c06gen.gen_cases(ctx, ctx.n(150, 1500), ctx.n(6, 8))
+    import random
+    # (its own stream: the generated families below keep the cases they had)
+    cases = c06gen.rankcap_cases(random.Random(ctx.seed * 7919 + 6), ctx.n(10, 0), thorough=ctx.tier == "thorough")
+    cases += [c06gen.rankcap_unit(k) for k in ((70, 84) if ctx.tier != "thorough" else (60, 70, 83, 84, 85, 90, 100))]
+    cases += c06gen.long_tail_cases() + c06gen.corpus_cases(ctx.rng, ctx.n(12, 120)) + c06gen.gen_cases(ctx, ctx.n(150, 1500), ctx.n(6, 8))
     impl = run_impl(exe, cases)
     todo = [(i, l) for i, l in enumerate(impl) if l.startswith("G ")]
     # the mirror with the pinned `shift` is only needed while the KNOWN_SHIFT class applies
     opt = " # OPT ncap=%d maxedits=%d mfuel=%d mirrors=%d" % (ctx.n(150000, 600000), ctx.n(6, 7), ctx.n(10000, 40000),
                                                             2 if SHIFT_FIXED else 3)
-    mout = core.run_lines([mexe], [repair.shrink_for_model(l) + opt for _, l in todo], timeout=2400)
+    if not RANK_CAP_FIXED:
+        opt += " rankcap=0"
+    # past the cap the repairs cost hundreds of edits: no edit bound for the reference (its work is still bounded by ncap nodes
+    # per cost level; these trees are chains), and where it is not computed the mirror stands in (validated tables only)
+    ropt = opt + " maxedits=1000000 mirrorcap=1 fullvalid=1 msmax=%d scap=100000 mfuel=%d" % (BIG_BUDGET_MS, ctx.n(400000, 1000000))
+    ropt_unit = ropt.replace("ncap=%d" % ctx.n(150000, 600000), "ncap=2000") + " direct=1"
+
+    def optfor(fam):
+        return ropt_unit if fam.startswith("rankcap_unit") else ropt if fam.startswith("rankcap") else opt
+    mout = core.run_lines([mexe], [repair.shrink_for_model(l) + optfor(cases[i][0]) for i, l in todo], timeout=2400)
     model = {i: m for (i, _), m in zip(todo, mout)}
     compared = 0
     mirror_ok = True
@@ -287,6 +340,30 @@ def run(ctx):
                     continue
                 if m.rf is None or m.rf[0] == "cap" or len(m.im) < len(seqs):
                     ctx.count("reference_not_computed(cap)")
+                    # past the look-ahead cap with unit costs the repairs cost >= 70 edits: the exhaustive reference is out of
+                    # reach, the search mirror stands in for it where the theorem says its set IS the reference set
+                    fm_ = m.mf if SHIFT_FIXED else m.mp
+                    if (fam.startswith("rankcap") and ei == 0 and RANK_CAP_FIXED and SHIFT_FIXED and m.rf is not None
+                            and len(m.im) == len(seqs) and fm_ is not None and fm_[0] == "done" and m.rk
+                            and all(verdict.get(k_, False) for k_ in ("wf", "S", "C", "E", "single", "nse"))):
+                        compared += 1
+                        ctx.count("errors_compared_with_mirror_as_reference(validated table)")
+                        impl_set = set(plain(s) for s in seqs)
+                        if set(fm_[1]) != impl_set:
+                            d = dict(d0)
+                            d.update({"what": "the reported set is not the set of minimum-cost repairs that parse as far as the best "
+                                              "within the look-ahead of the ranking",
+                                      "missing(reference, not reported)": [pretty(r, x)[:300] for x in sorted(set(fm_[1]) - impl_set)[:6]],
+                                      "extra(reported, not in reference)": [pretty(r, x)[:300] for x in sorted(impl_set - set(fm_[1]))[:6]],
+                                      "authority": "C06_validated_search_complete_at_error: on this validated table (wf, validS, validC, "
+                                                   "validE evaluated on the dump; rank_fuel_ok evaluated) the search mirror's set is the "
+                                                   "reference set; C06_rank_fixed_spec"})
+                            ctx.count("ALARM_reference_differs")
+                            ctx.violation(d)
+                            ok = False
+                        ctx.case(r.src + repr(sorted(r.costs.items())) + repr(inp.toks) + str(ei), bool(seqs),
+                                 {"grammar": r.src, "costs": cname, "input": r.names(inp.toks)[:40], "error_lexeme": e[0],
+                                  "impl_sequences": [pretty(r, plain(s))[:200] for s in seqs[:6]], "reference": "search mirror"})
                     ctx.oblige(ok)
                     continue
                 # ---- (ii) set equality with the reference ---------------------------------------------------
@@ -400,6 +477,19 @@ def run(ctx):
         ctx.count("cost_bound_probe_not_run")
     ctx.oblige(mirror_ok, "search mirror reproduces the implementation")
     ctx.count("errors_compared_total", compared)
+    ctx.coverage["rank_cap_rule"] = (
+        "first of all the families that reach PAST the look-ahead cap of the ranking (in_laidx + TRY_PARSE_AT_MOST = 250; gen/c06gen.py "
+        "rankcap_*): `S: 'a' R; R: 'e' Bs 'c' <tail> | 'c' <tail>; Bs: | Bs 'b';` on `a b^n c d..` with cost(b) = 1 and every other "
+        "token costing n (243 <= n <= 255, legal costs), so that [Delete b x n] (its trailing shifts end at in_laidx + n + 3: below, AT "
+        "and beyond the cap) and [Insert e] cost the same; tails `'d'^k 'x'` / `Ds` chosen so that the inserting candidate truly parses "
+        "further (the auditor's grammar and its two runs n = 255 / 240), the deleting one does, both reach the end, or the inserting one "
+        "fails before the cap (control) — quick: the 6 fixed cases + 10 sampled from the grid n x ki x kd x |tail|, thorough: the whole "
+        "grid (1040); and the auditor's UNIT-cost grammar `S: 'p' 'q' Rest; Rest: Ps 'z' | 'k'^G 'x' Ts 'z'; ..` on (p q x)^G z "
+        "(G = 70, 84 quick; 60..100 thorough; release harness, budget %d ms through the hook): deleting the G x's ends at in_laidx + "
+        "3G - 1.  Oracle as for every C06 case: set equality with the extracted reference (no edit bound for these families: the "
+        "enumeration trees are chains); where the reference is out of reach (unit costs, >= 60 edits) the search mirror stands in for "
+        "it on the FIRST error, and only when wf/validS/validC/validE/single_candidate/no_shift_eof/rank_fuel_ok all evaluate to true "
+        "on the dump (C06_validated_search_complete_at_error: the mirror's set is then the reference set)." % BIG_BUDGET_MS)
     ctx.coverage["rule"] = ("corpus first: 4 calculator-like conflict-free grammars (calc, Corchuelo's, sum, sequence) x {no "
                             "%avoid_insert, %avoid_insert on each single token (this also renumbers the tokens, i.e. reorders the "
                             "search)} x ALL inputs of length 1-3 over the alphabet + a seeded sample of length 4-5, unit costs "
@@ -419,8 +509,14 @@ def run(ctx):
         "beyond that the search reports nothing); the tie of the mirror to the implementation is the correspondence run, and "
         "completeness/minimality of the IMPLEMENTATION's set is still decided per generated error by set equality with the "
         "proved-exact reference",
+        "the distance of the rank is the CAPPED one (Model.far = min(plain parse from the candidate's configuration stopped at in_laidx + "
+        "TRY_PARSE_AT_MOST, that limit); C06_far_is_capped_distance): 'continue as far as the best of them' is read within the documented "
+        "look-ahead of the ranking, two candidates that both reach the cap tie (both reported) whatever happens beyond it; the reference "
+        "as it stood before /repo 00915cc compared uncapped with capped distances exactly as the pinned code did "
+        "(C06_reference_orig_uncapped) and has been corrected; RANK_CAP_FIXED=%s" % RANK_CAP_FIXED,
         "the reference is exponential in the repair cost: errors whose minimum cost needs more than %s edits or whose "
-        "enumeration exceeds the time cap are counted (reference_not_computed) and only get the direct checks" % ctx.n(6, 7),
+        "enumeration exceeds the time cap are counted (reference_not_computed) and only get the direct checks (the rankcap_* families have no "
+        "edit bound; rankcap_unit* fall back on the search mirror on validated tables, see rank_cap_rule)" % ctx.n(6, 7),
         "recovery budget raised to %d ms through the hook; inputs whose parse took >= 80%% of it are not compared" % BUDGET_MS,
         "error configurations are reproduced by the mirror driver of Repair/Semantics.v replaying the implementation's own first "
         "sequences (C05's tie); an error whose position/state the mirror does not reproduce is left to C05",
